@@ -114,26 +114,22 @@ var hostDirs = []string{"/dev", "/proc", "/sys", "/run"}
 
 // ---------------------------------------------------------------- file tree
 func makeTree(entries []Entry) error {
+	// entries that cannot be created (a generated name clashing with an earlier one) are
+	// skipped: the initial world handed to Coq is the dump of what really exists
 	for _, e := range entries {
 		p := string(e.Path)
 		switch e.Kind {
 		case "d":
-			if err := os.MkdirAll(p, 0755); err != nil {
-				return err
-			}
+			os.MkdirAll(p, 0755)
 		case "f":
-			if err := os.MkdirAll(path.Dir(p), 0755); err != nil {
-				return err
-			}
-			if err := os.WriteFile(p, []byte(e.Data), 0644); err != nil {
-				return err
+			if os.MkdirAll(path.Dir(p), 0755) == nil {
+				if st, err := os.Lstat(p); err != nil || st.Mode().IsRegular() {
+					os.WriteFile(p, []byte(e.Data), 0644)
+				}
 			}
 		case "l":
-			if err := os.MkdirAll(path.Dir(p), 0755); err != nil {
-				return err
-			}
-			if err := os.Symlink(string(e.Data), p); err != nil {
-				return err
+			if os.MkdirAll(path.Dir(p), 0755) == nil {
+				os.Symlink(string(e.Data), p)
 			}
 		}
 	}
